@@ -228,3 +228,48 @@ func RandomMutants(g *prng.Rng, frame []byte, f *ref.Frame, n int) []Mutant {
 	}
 	return out
 }
+
+// FarOffsets rewrites the offset of the first sequence of every compressed block so that the
+// match reaches before the start of the block (just before it, a few hundred bytes, the maximum):
+// invalid for a block that stands on its own or opens a frame, satisfiable only from data that
+// precedes the block.  Block checksums are repaired, so that only the decoder can notice.
+func FarOffsets(frame []byte, f *ref.Frame) []Mutant {
+	var out []Mutant
+	if f.Legacy {
+		return nil
+	}
+	for _, b := range f.Blocks {
+		if b.Stored || b.Size < 4 {
+			continue
+		}
+		blk := frame[b.DataOff : b.DataOff+b.Size]
+		ll := int(blk[0] >> 4)
+		p := 1
+		if ll == 15 {
+			for p < len(blk) {
+				v := int(blk[p])
+				p++
+				ll += v
+				if v != 255 {
+					break
+				}
+			}
+		}
+		p += ll
+		if p+2 > len(blk) {
+			continue // literals only
+		}
+		for _, off := range []int{ll + 1, ll + 7, 300, 1400, 40000, 65535} {
+			if off > 65535 {
+				continue
+			}
+			m := clone(frame)
+			binary.LittleEndian.PutUint16(m[b.DataOff+p:], uint16(off))
+			if b.HasChecksum {
+				binary.LittleEndian.PutUint32(m[b.DataOff+b.Size:], ref.XXH32(m[b.DataOff:b.DataOff+b.Size]))
+			}
+			out = append(out, Mutant{m, fmt.Sprintf("first-offset-%d", off), "bdata"})
+		}
+	}
+	return out
+}
